@@ -1057,9 +1057,15 @@ def logical_files(draw, min_files=1, max_files=4, max_sets=6, crash_shapes=None,
     records = []
     for i in range(n):
         lp = bool(log_pass_weight) and draw(ints(0, log_pass_weight - 1)) == 0
-        records += _logical_file_records(draw, seq=i + 1, max_sets=max_sets if not lp else min(max_sets, 2), crash_shapes=crash_shapes,
-                                         absent=absent, log_pass=lp, allow_encrypted=allow_encrypted,
-                                         log_pass_args=dict(dict(max_frames=6, max_frame_types=2), **(log_pass_args or {})))
+        recs_ = _logical_file_records(draw, seq=i + 1, max_sets=max_sets if not lp else min(max_sets, 2), crash_shapes=crash_shapes,
+                                      absent=absent, log_pass=lp, allow_encrypted=allow_encrypted,
+                                      log_pass_args=dict(dict(max_frames=6, max_frame_types=2), **(log_pass_args or {})))
+        if i and draw(ints(0, 7)) == 0:
+            # the FILE-HEADER set of a later logical file written with another set role (replacement / redundant set component):
+            # "exactly at each FILE-HEADER record" - the role bits of the set component do not make it another kind of record
+            k_ = next(j for j, r_ in enumerate(recs_) if r_['kind'] == 'set' and r_['set']['type'] == b'FILE-HEADER')
+            recs_[k_] = dict(recs_[k_], set=dict(recs_[k_]['set'], role=_pick(draw, ['RDSET', 'RSET'])))
+        records += recs_
     return _finish_case(draw, records)
 
 
